@@ -15,7 +15,7 @@ OUT=/verif/seeded/$ID-$K
 [ -f "$SRC/patch.diff" ] || { echo "no patch in $SRC"; exit 2; }
 rm -rf "$W"; git -C /repo worktree prune
 git -C /repo worktree add -q --detach "$W" HEAD || exit 2
-export CARGO_TARGET_DIR=/tmp/conf-target-$ID CARGO_NET_OFFLINE=true
+export CARGO_TARGET_DIR=${CONF_TARGET:-/tmp/conf-target-$ID} CARGO_NET_OFFLINE=true
 cleanup() { git -C /repo worktree remove --force "$W" 2>/dev/null; git -C /repo worktree prune; }
 trap cleanup EXIT
 mkdir -p "$OUT"; cp "$SRC/patch.diff" "$SRC/seed_demo.rs" "$OUT/"
@@ -39,7 +39,7 @@ fi
 cd /verif
 RESULTS=""
 for C in $CHECKS; do
-  R=$(./mutant-run.sh seed-$ID-$K-$C "$SRC/patch.diff" "$C" quick 2>&1 | tail -4 | tr '\n' ' ' | cut -c1-600)
+  R=$(./mutant-run.sh seed-$ID-$K-$C "$SRC/patch.diff" "$C" quick 2>&1 | grep -v "^KNOWN-FINDING" | tail -4 | tr '\n' ' ' | cut -c1-600)
   RESULTS="$RESULTS [$C] $R"
 done
 python3 - "$SRC/meta.json" "$OUT/meta.json" "$APPLIES" "$SUITE" "$DEMO_WITH" "$DEMO_WITHOUT" "$RESULTS" "$(git -C /repo rev-parse --short HEAD)" <<'PY'
